@@ -46,8 +46,10 @@ def check_diagram(rep, d, others):
         for s in steps(monoidal.Diagram.normalize(d, left=left)):
             must_be_wf(rep, 'normalize.step', s, 'normalize(%s, left=%r)' % (r, left))
     try:
-        must_be_wf(rep, 'normal_form', monoidal.Diagram.normal_form(d), 'normal_form(%s)' % r)
-    except NotImplementedError:
+        with common.time_limit(30):      # a hang is C06's business (reported there), not a typing failure
+            n_f = monoidal.Diagram.normal_form(d)
+        must_be_wf(rep, 'normal_form', n_f, 'normal_form(%s)' % r)
+    except (NotImplementedError, common.Hang):
         pass
     fol = steps(d.foliate())
     for s in fol:
@@ -140,6 +142,74 @@ def check_functors(rep, diagrams):
         rep.case(('functor', repr(d)))
 
 
+def box_catalogue():
+    """one instance of every box class of the library with every combination of its type-changing flags"""
+    from discopy import tensor
+    from discopy.quantum import circuit as C, gates as G, zx
+    out = []
+    x, y = monoidal.Ty('x'), monoidal.Ty('y')
+    out += [monoidal.Box('f', x, y @ x), monoidal.Swap(x, y)]
+    rx, ry = rigid.Ty('x'), rigid.Ty('y')
+    out += [rigid.Box('f', rx, ry @ rx.l), rigid.Cup(rx, rx.r), rigid.Cup(rx.l, rx), rigid.Cap(rx, rx.l),
+            rigid.Cap(rx.r, rx), rigid.Swap(rx, ry.l)]
+    d2, d3 = tensor.Dim(2), tensor.Dim(3)
+    out += [tensor.Box('f', d2, d3 @ d2, list(range(12))), tensor.Cup(d2, d2), tensor.Cap(d3, d3),
+            tensor.Swap(d2, d3)]
+    for n in (1, 2):
+        for a, b in itertools.product((False, True), repeat=2):
+            out += [C.Measure(n, destructive=a, override_bits=b), C.Encode(n, constructive=a, reset_bits=b)]
+        out += [C.Discard(C.qubit ** n), C.Discard(C.bit ** n), C.MixedState(C.qubit ** n), C.MixedState(C.bit ** n)]
+    out += [C.Discard(C.bit @ C.qubit), C.MixedState(C.qubit @ C.bit), C.Swap(C.bit, C.qubit), C.Swap(C.qubit, C.qubit)]
+    out += [G.Ket(0, 1), G.Bra(1), G.Bits(1, 0), G.Bits(1).dagger(), G.H, G.S, G.T, G.X, G.Y, G.Z, G.CX, G.CZ, G.SWAP,
+            G.Rx(0.25), G.Ry(0.25), G.Rz(0.25), G.CRz(0.25), G.CRx(0.25), G.CU1(0.25), G.Controlled(G.S),
+            G.scalar(0.5), G.sqrt(2), G.Copy(), G.Match(),
+            G.ClassicalGate('c', 1, 2, [0, 1, 1, 0, 1, 0, 0, 1])]
+    out += [zx.Z(1, 2, 0.25), zx.X(2, 1, 0.5), zx.H, zx.SWAP, zx.scalar(0.5)]
+    return out
+
+
+def check_box_catalogue(rep):
+    """the dagger of every box class exchanges its domain and codomain (the unchecked fast path of Diagram.dagger
+    relies on it), twice the dagger is the box, and the dagger of a diagram around the box is well-typed"""
+    for b in box_catalogue():
+        inp = '%s.%s %r' % (type(b).__module__, type(b).__name__, b)
+        rep.case(inp)
+        got = common.outcome(lambda: b.dagger())
+        rep.count('box.dagger')
+        if got[0] != 'ok':
+            rep.fail('C01:box.dagger.raises', 'dagger raised %r' % (got,), inp)
+            continue
+        dag = got[1]
+        if (dag.dom, dag.cod) != (b.cod, b.dom):
+            rep.fail('C01:box.dagger.type', 'dagger has type %r -> %r, expected %r -> %r'
+                     % (dag.dom, dag.cod, b.cod, b.dom), inp)
+        back = common.outcome(lambda: dag.dagger())
+        if back[0] != 'ok' or (back[1].dom, back[1].cod) != (b.dom, b.cod):
+            rep.fail('C01:box.dagger.twice', 'dagger of the dagger: %r' % (back,), inp)
+        for d, what in ((b >> b.dagger(), 'b >> b.dagger()'), (b.dagger() >> b, 'b.dagger() >> b'),
+                        ((b @ b).dagger(), '(b @ b).dagger()'), ((b >> b.dagger()).dagger(), '(b >> b.dagger()).dagger()')):
+            must_be_wf(rep, 'box.dagger.diagram', d, what + ' with b = ' + inp)
+
+
+def check_cat(rep):
+    """the cat.Arrow constructor refuses ill-typed requests, including the empty box list"""
+    x, y, z = cat.Ob('x'), cat.Ob('y'), cat.Ob('z')
+    f, g = cat.Box('f', x, y), cat.Box('g', y, z)
+    for dom, cod, boxes in itertools.product((x, y, z), (x, y, z), ([], [f], [g], [f, g], [g, f], [f, f])):
+        inp = 'cat.Arrow(%r, %r, %r)' % (dom, cod, boxes)
+        rep.case(inp)
+        rep.count('cat.constructor')
+        scan, ok = dom, True
+        for b in boxes:
+            ok, scan = ok and b.dom == scan, b.cod
+        ok = ok and scan == cod
+        got = common.outcome(cat.Arrow, dom, cod, boxes)
+        if ok and got[0] != 'ok':
+            rep.fail('C01:cat.constructor.accepts', 'well-typed request gave %r' % (got,), inp)
+        if not ok and got != ('exc', AxiomError):
+            rep.fail('C01:cat.constructor.refuses', 'ill-typed request gave %r' % (got,), inp)
+
+
 def run(tier, seed=0, shard=(0, 1)):
     max_boxes = 3 if tier == 'quick' else 4
     x, y = monoidal.Ty('x'), monoidal.Ty('y')
@@ -151,7 +221,7 @@ def run(tier, seed=0, shard=(0, 1)):
                   'doms': [repr(t) for t in doms], 'operations': 'dagger, all slices, getitem, normalize (both '
                   'sides, <= 40 steps), normal_form, foliate, foliation, flatten, tensor/then with 5 fixed '
                   'diagrams, constructor with offsets -3..4, swap/permutation of types of length <= 3 '
-                  '(monoidal, rigid), cups/caps/transpose (rigid), one monoidal functor per diagram'})
+                  '(monoidal, rigid), cups/caps/transpose (rigid), one monoidal functor per diagram; the dagger of one instance of every box class with every flag combination (about 75 boxes) and of diagrams around it; the cat.Arrow constructor on 54 requests'})
     sample = []
     for idx, d in enumerate(common.gen_diagrams(doms, boxes, max_boxes)):
         if idx % shard[1] != shard[0]:
@@ -163,6 +233,9 @@ def run(tier, seed=0, shard=(0, 1)):
     check_functors(rep, sample)
     if shard[0] == 0:
         check_constructor(rep, boxes, [monoidal.Ty(), x, x @ x, x @ y])
+    if shard[0] == 1 % shard[1]:
+        check_box_catalogue(rep)
+        check_cat(rep)
     mtys = [monoidal.Ty(), x, y, x @ y, x @ x @ y]
     check_structural(rep, mtys, monoidal.Diagram, shard)
     rx, ry = rigid.Ty('x'), rigid.Ty('y')
